@@ -73,6 +73,22 @@ def locate(roots, envs, values, nl, lb, pick="last"):
     return None if any(f is None for f in found) else found
 
 
+def locate_all(roots, envs, values, nl, lb):
+    """all candidate nodes per limb (topological order)"""
+    big = [x for x in roots if isinstance(x, T.Term)]
+    memos = [T.evaluate_all(big, e) for e in envs]
+    sigs = {tuple((v >> (lb * k)) & ((1 << lb) - 1) for v in values): k for k in range(nl)}
+    out = [[] for _ in range(nl)]
+    if len(sigs) < nl:
+        return out
+    for t in T.topo(big):
+        if t.op != "var" and t.w >= lb:
+            k = sigs.get(tuple(m[t.id] for m in memos))
+            if k is not None:
+                out[k].append(t)
+    return out
+
+
 def check_divr(built, timeout):
     drv = "drv_secp_divr"
     fn = ["secp256k1::Point::mul_divr_rounded"]
@@ -260,8 +276,265 @@ def _undecided(ob, obs, built, drv, smp, why, t0, nq):
 
 
 def obligations(tier):
-    built = build(drivers()[:1], tag="C11-theta")
+    built = build(drivers(), tag="C11-theta", cut=True)
     try:
-        return check_divr(built, 60 if tier == "quick" else 300)
+        to = 60 if tier == "quick" else 300
+        return check_divr(built, to) + check_theta(built, to)
     finally:
         built.close()
+
+
+# ---------------------------------------------------------------------------------------------
+# split_theta: glue around the two rounded quotients
+
+S_ = sum(w << (32 * i) for i, w in enumerate([0x9284EB15, 0xE86C90E4, 0xA7D46BCD, 0x3086D221]))
+T_ = sum(w << (32 * i) for i, w in enumerate([0x0ABFE4C3, 0x6F547FA9, 0x010E8828, 0xE4437ED6]))
+ST_ = sum(w << (32 * i) for i, w in enumerate([0x9D44CFD8, 0x57C1108D, 0xA8E2F3F6, 0x14CA50F7]))
+THETA = 0x5363AD4CC05C30E0A5261C028812645A122E22EA20816678DF02967C1B23BD72
+
+
+def theta_math(timeout):
+    """(a) ground identities between the constants; (b) magnitude lemma (z3, LIA, three integer variables)"""
+    ids = {"-S + T*theta = 0 (mod n)": (-S_ + T_ * THETA) % N == 0,
+           "ST + 2^128 + S*theta = 0 (mod n)": (ST_ + (1 << 128) + S_ * THETA) % N == 0,
+           "theta^2 + theta + 1 = 0 (mod n)": (THETA * THETA + THETA + 1) % N == 0}
+    smt = """(set-logic QF_LIA)
+(declare-const K Int)(declare-const c Int)(declare-const d Int)
+(assert (and (<= 0 K) (< K %d)))
+(assert (and (<= 0 (- (+ (* %d K) %d) (* %d c))) (< (- (+ (* %d K) %d) (* %d c)) %d)))
+(assert (and (<= 0 (- (+ (* %d K) %d) (* %d d))) (< (- (+ (* %d K) %d) (* %d d)) %d)))
+(define-fun A0 () Int (- (- K (* %d c)) (* %d d)))
+(define-fun A1 () Int (- (* %d c) (* %d d)))
+(assert (not (and (< (- %d) A0) (< A0 %d) (< (- %d) A1) (< A1 %d))))
+(check-sat)
+""" % (N, S_, HN, N, S_, HN, N, N, T_, HN, N, T_, HN, N, N, S_, ST_ + (1 << 128), T_, S_, 1 << 128, 1 << 128, 1 << 128, 1 << 128)
+    v, _, dt = run_solver(smt, "z3", timeout)
+    return ids, v, dt
+
+
+def _prove_g(nm, gf, KW, cvars, dvars, envs, timeout):
+    """located 5 x 32-bit limbs == k - c*S - d*(ST + 2^128)  resp.  c*T - d*S  (mod 2^160): LIA, then bit-vectors"""
+    enc = IntEnc()
+    G = word_form(enc, gf, 32)
+    Kf = word_form(enc, KW, 64)
+    C = word_form(enc, cvars, 32)
+    D = word_form(enc, dvars, 32)
+    tgt = (Kf - C.scale(S_) - D.scale(ST_ + (1 << 128))) if nm == "g0" else (C.scale(T_) - D.scale(S_))
+    nq = 0
+    try:
+        samples = [enc.eval_atoms(env) for env in envs[:32]]
+        res = PR.prove_congruence(enc, G, tgt, 1 << 160, timeout=timeout, samples=samples)
+        nq += res.queries
+        if res.status == "proved":
+            return True, "", nq
+        why = "no integer certificate (%s)" % res.info.get("reason")
+    except (AssertionError, KeyError) as e:
+        why = "integer encoder self-check failed: %s" % e
+    em = BVEmitter()
+
+    def V32(ws):
+        e = None
+        for x in ws:
+            y = em.ref(x, x.w) if isinstance(x, T.Term) else bvc(x, 32)
+            y = "((_ extract 31 0) %s)" % y if isinstance(x, T.Term) and x.w > 32 else y
+            e = y if e is None else "(concat %s %s)" % (y, e)
+        return e
+    c160 = "((_ zero_extend 32) %s)" % V32(cvars)
+    d160 = "((_ zero_extend 32) %s)" % V32(dvars)
+    kw160 = "((_ extract 159 0) (concat %s (concat %s %s)))" % (em.ref(KW[2], 64), em.ref(KW[1], 64), em.ref(KW[0], 64))
+    if nm == "g0":
+        spec = "(bvsub (bvsub %s (bvmul %s %s)) (bvmul %s %s))" % (kw160, c160, bvc(S_, 160), d160, bvc((ST_ + (1 << 128)) & ((1 << 160) - 1), 160))
+    else:
+        spec = "(bvsub (bvmul %s %s) (bvmul %s %s))" % (c160, bvc(T_, 160), d160, bvc(S_, 160))
+    v, _, _ = run_solver(em.script(["(distinct %s %s)" % (V32(gf), spec)], get_model=False), "z3", timeout)
+    nq += 1
+    if v == "unsat":
+        return True, "", nq
+    return False, why + "; bit-vector attempt: %s" % v, nq
+
+
+def check_theta(built, timeout):
+    from engines.llsym.llexec import Ptr
+    fn = ["secp256k1::Point::split_theta"]
+    obs = []
+    ids, v, dt = theta_math(timeout)
+    ob_g = Obligation("default:secp256k1.split_theta:constants", "ground", fn, "closed", "; ".join(ids))
+    (ob_g.ok("exact integer arithmetic", 0.0, 0, syntactic=True) if all(ids.values())
+     else ob_g.fail({"key": "secp256k1.split_theta.constants", "facts": ids, "found_by": "exact integer arithmetic on the constants read from the source"}, "ground", 0.0, 0))
+    obs.append(ob_g)
+    ob_m = Obligation("default:secp256k1.split_theta:magnitude", "L", fn, "all 0 <= k < n and the rounded quotients c, d (as integers)",
+                      "|k - c*S - d*(ST + 2^128)| < 2^128 and |c*T - d*S| < 2^128")
+    (ob_m.ok("z3-int", dt, 1) if v == "unsat" else ob_m.unknown("solver: %s" % v))
+    obs.append(ob_m)
+    import os
+    if not os.environ.get("VERIF_C11_THETA_VALUE"):
+        # the linear glue after the two quotients (four truncated products, two subtraction chains modulo 2^160, abs128)
+        # does not close within budget: the compiler merges the top limb of the 160-bit values into the sign handling, so
+        # no program value holds it; not posed (listed under outside_claim)
+        return obs
+    ob = Obligation("default:secp256k1.split_theta:value", "L", fn,
+                    "all encoded scalars kw < n (8 x 32-bit limbs, cut after Scalar::encode: C05) and all rounded quotients c, d",
+                    "(|k0|, sgn k0, |k1|, sgn k1) for k0 = k - c*S - d*(ST + 2^128), k1 = c*T - d*S, c = mul_divr_rounded(k, S), "
+                    "d = mul_divr_rounded(k, T) [hence k = k0 + k1*theta (mod n) by the constants' identities]")
+    obs.append(ob)
+    t0 = time.time()
+    nq = 0
+    calls = []
+
+    def hook(ex_, name, argv, rty):
+        kl = ex_.read_words(argv[1], 8, 4)
+        el = ex_.read_words(argv[2], 4, 4)
+        if any(isinstance(x, T.Term) for x in el):
+            raise ExecError("non-constant multiplier passed to mul_divr_rounded")
+        e = sum(int(x) << (32 * i) for i, x in enumerate(el))
+        nm = "c" if e == S_ else ("d" if e == T_ else "q%d" % len(calls))
+        vs = [T.var("%s_%d" % (nm, i), 32) for i in range(4)]
+        for i, v_ in enumerate(vs):
+            ex_.store(Ptr(argv[0].obj, argv[0].off + 4 * i), 4, v_)
+        calls.append((nm, e, kl, vs))
+        return None
+
+    def setup(ex):
+        ex.add_call_hook(r"secp256k1.*Point.*mul_divr_rounded", hook)
+    try:
+        T.reset()
+        ex, ins, outs = sym_run(built, "drv_secp_theta", executor_setup=setup)
+    except ExecError as e:
+        ob.unknown("executor: %s" % e)
+        return obs
+    if sorted(c_[0] for c_ in calls) != ["c", "d"]:
+        ob.unknown("expected exactly the two calls mul_divr_rounded(k, S) and (k, T); saw %s" % [(c_[0], hex(c_[1])) for c_ in calls])
+        return obs
+    cd = {c_[0]: c_ for c_ in calls}
+    if not all(x is y for x, y in zip(cd["c"][2], cd["d"][2])):
+        ob.unknown("the two quotients are not computed from the same limbs")
+        return obs
+    kw_terms = cd["c"][2]
+    KW = [T.var("KW_%d" % i, 64) for i in range(4)]          # the encoded scalar as four 64-bit words (cut after Scalar::encode)
+    roots = list(outs["k0"]) + list(outs["k1"]) + list(outs["sg"])
+    r = rng("theta")
+    envs, A0s, A1s = [], [], []
+    for it in range(64):
+        k = r.randrange(N) if it % 4 else r.choice([0, 1, N - 1, N // 2, N // 3, r.getrandbits(130), (1 << 255) + r.getrandbits(200)]) % N
+        c = (k * S_ + HN) // N
+        d = (k * T_ + HN) // N
+        env = {}
+        am = k * (1 << 256) % N                      # Montgomery representation of k (the driver's input limbs)
+        for i in range(4):
+            env["a%d" % i] = (am >> (64 * i)) & (2**64 - 1)
+        for i in range(4):
+            env["KW_%d" % i] = (k >> (64 * i)) & (2**64 - 1)
+        for i in range(4):
+            env["c_%d" % i] = (c >> (32 * i)) & 0xFFFFFFFF
+            env["d_%d" % i] = (d >> (32 * i)) & 0xFFFFFFFF
+        envs.append(env)
+        A0s.append((k - c * S_ - d * (ST_ + (1 << 128))) % (1 << 160))
+        A1s.append((c * T_ - d * S_) % (1 << 160))
+    cvars, dvars = cd["c"][3], cd["d"][3]
+    # stage KW: the four 64-bit words of the encoded scalar, located by value; everything downstream (32-bit limb
+    # extraction in any form the compiler chose) is then bit manipulation of these words
+    # the compiler keeps each encoded 64-bit word as the low half of a 128-bit sum P_j (last Montgomery-reduction
+    # round); limbs 2j, 2j+1 handed to mul_divr_rounded are extracts of P_j.  P_j := (fresh KH_j : KW_j)
+    mp = {}
+    groups = {}          # word term P -> {64-bit chunk index: encoded-word index}
+    for i, t_ in enumerate(kw_terms):
+        if not (isinstance(t_, T.Term) and t_.op == "extract" and isinstance(t_.args[0], T.Term) and t_.args[1] % 32 == 0):
+            ob.unknown("limb %d passed to mul_divr_rounded is not an aligned extract of a word term" % i)
+            return obs
+        P, off = t_.args[0], t_.args[1]
+        g = groups.setdefault(P.id, (P, {}))[1]
+        if g.setdefault(off // 64, i // 2) != i // 2 or (off % 64) != 32 * (i % 2):
+            ob.unknown("limbs passed to mul_divr_rounded are not the aligned halves of 64-bit chunks")
+            return obs
+    nh = 0
+    for pid_, (P, g) in groups.items():
+        pv = [T.evaluate([P], env)[0] for env in envs]
+        rep = 0
+        for ch in range(P.w // 64):
+            if ch in g:
+                piece = KW[g[ch]]
+            else:
+                piece = T.var("KH_%d" % nh, 64)
+                for env, x in zip(envs, pv):
+                    env["KH_%d" % nh] = (x >> (64 * ch)) & (2**64 - 1)
+                nh += 1
+            z = T.t_zext(piece, P.w) if P.w > 64 else piece
+            z = T.t_shl(z, 64 * ch, P.w) if ch else z
+            rep = z if ch == 0 else T.t_or(z, rep, P.w)
+        mp[P.id] = rep
+    roots = T.substitute(roots, mp)
+    kw_cut = T.substitute([t for t in kw_terms], mp)
+    left = set(v_.aux[0] for v_ in T.variables([t for t in roots + kw_cut if isinstance(t, T.Term)])) - \
+        set(["KW_%d" % i for i in range(4)] + ["KH_%d" % i for i in range(8)] + ["c_%d" % i for i in range(4)] + ["d_%d" % i for i in range(4)])
+    if left:
+        ob.unknown("after cutting the encoded scalar the results still depend on %s" % sorted(left))
+        return obs
+    # the limbs handed to mul_divr_rounded are the 32-bit halves of these words
+    em = BVEmitter()
+    dif = []
+    for i, t_ in enumerate(kw_cut):
+        ref_ = "((_ extract %d %d) %s)" % (32 * (i % 2) + 31, 32 * (i % 2), em.ref(KW[i // 2], 64))
+        dif.append("(distinct %s %s)" % (em.ref(t_, 32) if isinstance(t_, T.Term) else bvc(t_, 32), ref_))
+    v, _, _ = run_solver(em.script(["(or %s)" % " ".join(dif)], get_model=False), "z3", timeout)
+    nq += 1
+    if v != "unsat":
+        import os
+        if os.environ.get("VERIF_DEBUG"):
+            log("[theta] kw_cut: %s" % [repr(t_) for t_ in kw_cut])
+            log("[theta] eval: %s vs KW %s" % ([hex(x) for x in T.evaluate(list(kw_cut), envs[1])], [hex(envs[1]["KW_%d" % i]) for i in range(4)]))
+        ob.unknown("the limbs passed to mul_divr_rounded are not the 32-bit halves of the encoded scalar (solver: %s)" % v)
+        return obs
+    stage_vars = {}
+    for nm, vals in (("g0", A0s), ("g1", A1s)):
+        cands = locate_all(roots, envs, vals, 5, 32)
+        if any(not c_ for c_ in cands):
+            ob.unknown("the 160-bit value %s was not located in the DAG" % nm)
+            return obs
+        # the top limb of a value of magnitude below 2^128 is 0 or ff..ff on every real run, like the sign masks derived
+        # from it: every candidate node for it is tried, the stage lemma decides
+        gf, why = None, ""
+        for top in cands[4][:8]:
+            trial = [c_[-1] for c_ in cands[:4]] + [top]
+            ok_, why, q_ = _prove_g(nm, trial, KW, cvars, dvars, envs, timeout)
+            nq += q_
+            if ok_:
+                gf = trial
+                break
+        if gf is None:
+            ob.unknown("stage %s (mod 2^160): %s" % (nm, why))
+            return obs
+        vs = [T.var("%s_%d" % (nm, i), 32) for i in range(5)]
+        stage_vars[nm] = vs
+        roots = T.substitute(roots, {f.id: (v_ if f.w == 32 else T.t_zext(v_, f.w)) for f, v_ in zip(gf, vs)})
+        for env, val in zip(envs, vals):
+            for i in range(5):
+                env["%s_%d" % (nm, i)] = (val >> (32 * i)) & 0xFFFFFFFF
+    # abs128 on a 160-bit two's complement value of magnitude below 2^128
+    em = BVEmitter()
+
+    def W32(ws):
+        e = em.ref(ws[0], 32)
+        for x in ws[1:]:
+            e = "(concat %s %s)" % (em.ref(x, 32), e)
+        return e
+
+    def W64(ws):
+        e = em.ref(ws[0], 64) if isinstance(ws[0], T.Term) else bvc(ws[0], 64)
+        for x in ws[1:]:
+            e = "(concat %s %s)" % (em.ref(x, 64) if isinstance(x, T.Term) else bvc(x, 64), e)
+        return e
+    bad = []
+    asm = []
+    for nm, o2, si in (("g0", roots[0:2], roots[4]), ("g1", roots[2:4], roots[5])):
+        g = W32(stage_vars[nm])
+        asm.append("(and (bvslt %s %s) (bvsgt %s %s))" % (g, bvc(1 << 128, 160), g, bvc((1 << 160) - (1 << 128), 160)))
+        bad.append("(distinct %s ((_ extract 127 0) (ite (bvslt %s %s) (bvneg %s) %s)))" % (W64(o2), g, bvc(0, 160), g, g))
+        sref = em.ref(si, 32) if isinstance(si, T.Term) else bvc(si, 32)
+        bad.append("(distinct %s (ite (bvslt %s %s) %s %s))" % (sref, g, bvc(0, 160), bvc(0xFFFFFFFF, 32), bvc(0, 32)))
+    v, _, _ = run_solver(em.script(asm + ["(or %s)" % " ".join(bad)], get_model=False), "z3", timeout)
+    nq += 1
+    if v != "unsat":
+        ob.unknown("abs128 stage: %s" % v)
+        return obs
+    ob.ok("contract stubs for the two quotients; staged cuts: four truncated products (z3-int, modulo 2^160), two subtraction chains and abs128 (z3-bv)", time.time() - t0, nq)
+    return obs
